@@ -137,6 +137,18 @@ def PruneFree : List Op → Prop
   | .walk _ prune :: rest => prune = false ∧ PruneFree rest
   | _ :: rest => PruneFree rest
 
+instance decPruneFree : (ops : List Op) → Decidable (PruneFree ops)
+  | [] => isTrue trivial
+  | op :: rest =>
+    have := decPruneFree rest
+    match op with
+    | .walk _ prune => by unfold PruneFree; exact inferInstance
+    | .submit _ => by unfold PruneFree; exact inferInstance
+    | .confirm _ => by unfold PruneFree; exact inferInstance
+    | .play _ => by unfold PruneFree; exact inferInstance
+    | .playMiner _ => by unfold PruneFree; exact inferInstance
+    | .truncate _ => by unfold PruneFree; exact inferInstance
+
 theorem runOp_irrev_le (e : Env) (n : Node) (op : Op) (h : PruneFree [op]) : n.s.irrev ≤ (runOp e n op).s.irrev := by
   cases op with
   | submit i => exact Int.le_of_eq (XV.C17.doTx_irrev e n.s (lh n) i).symm
@@ -220,5 +232,56 @@ theorem crashStates_irrev_sorted (e : Env) : ∀ (ops : List Op) (n : Node), Pru
       · exact Int.le_trans hle (hfrom a ha)
     · intro a ha b hb
       exact Int.le_trans (htrace.2 a ha).2 (hfrom b hb)
+
+-- ------------------------------------------------------------------ first and last crash state
+
+theorem crashStates_getLast (e : Env) : ∀ (ops : List Op) (n : Node),
+    (crashStates e n ops).getLast? = some (run e n ops) := by
+  intro ops
+  induction ops with
+  | nil => intro n; rfl
+  | cons op rest ih =>
+    intro n
+    unfold crashStates
+    rw [List.getLast?_cons, List.getLast?_append, ih]
+    rfl
+
+/-- in a list sorted for a reflexive relation every element lies between the first and the last -/
+theorem pairwise_bounds {α : Type} (r : α → α → Prop) (hrefl : ∀ a, r a a) (l : List α) (h : l.Pairwise r) (a b : α)
+    (hh : l.head? = some a) (hl : l.getLast? = some b) : ∀ x ∈ l, r a x ∧ r x b := by
+  intro x hx
+  obtain ⟨l1, l2, hsplit⟩ := List.append_of_mem hx
+  subst hsplit
+  obtain ⟨_, p2, p3⟩ := List.pairwise_append.mp h
+  constructor
+  · cases l1 with
+    | nil =>
+      simp only [List.nil_append, List.head?_cons, Option.some.injEq] at hh
+      rw [← hh]; exact hrefl _
+    | cons c l1' =>
+      simp only [List.cons_append, List.head?_cons, Option.some.injEq] at hh
+      rw [← hh]
+      exact p3 c List.mem_cons_self x List.mem_cons_self
+  · rw [List.getLast?_append, List.getLast?_cons] at hl
+    simp only [Option.some_or, Option.some.injEq] at hl
+    cases hl2 : l2.getLast? with
+    | none =>
+      rw [hl2] at hl
+      simp only [Option.getD_none] at hl
+      rw [← hl]; exact hrefl _
+    | some c =>
+      rw [hl2] at hl
+      simp only [Option.getD_some] at hl
+      rw [← hl]
+      exact (List.pairwise_cons.mp p2).1 c (List.mem_of_getLast? hl2)
+
+/-- along a history without pruning walks the irreversible height of every crash state lies between the value the
+history starts with and the value the uninterrupted run ends with -/
+theorem crashStates_irrev_bounds (e : Env) (ops : List Op) (n : Node) (hpf : PruneFree ops)
+    (x : Node) (hx : x ∈ crashStates e n ops) :
+    n.s.irrev ≤ x.s.irrev ∧ x.s.irrev ≤ (run e n ops).s.irrev := by
+  obtain ⟨tl, htl⟩ := crashStates_head e n ops
+  exact pairwise_bounds (fun a b : Node => a.s.irrev ≤ b.s.irrev) (fun a => Int.le_refl _) _
+    (crashStates_irrev_sorted e ops n hpf) n (run e n ops) (by rw [htl]; rfl) (crashStates_getLast e ops n) x hx
 
 end XV.Crash
